@@ -755,7 +755,7 @@ func runC09(c *Ctx) {
 
 	effectsOf := func(t types.Type) ([]sink, string) {
 		tn := typeName(t)
-		body, def, ta := simulate(hHead, t)
+		body, def, ta := simulateDeep(hHead, t)
 		if def {
 			return nil, "default"
 		}
@@ -775,7 +775,7 @@ func runC09(c *Ctx) {
 	}
 	// where does an OpenFile sink get its flags in this region
 	syntheticOpenFlags := func(t types.Type) (uint64, bool) {
-		body, _, _ := simulate(hHead, t)
+		body, _, _ := simulateDeep(hHead, t)
 		region := regionOf(handle, body)
 		var val uint64
 		found := false
